@@ -26,7 +26,7 @@ impl Prop for C20 {
         vec!["the scope oracle is the real checker itself (substitute the suggestion and look for an 'Undefined variable' error naming it)".into()]
     }
     fn phases(&self, tier: Tier) -> Vec<Phase> {
-        vec![Phase::new("queries", tier.pick(4000, 50000)).min_cases(tier.pick(1000, 12000)).timeouts(180, tier.pick(300, 1500))]
+        vec![Phase::new("queries", tier.pick(4000, 100000)).min_cases(tier.pick(1000, 20000)).timeouts(180, tier.pick(300, 1500))]
     }
     fn worker(&self, _ctx: &WorkerCtx) -> Box<dyn Worker> {
         Box::new(W { vm: None, used: 0 })
